@@ -10,6 +10,7 @@
 import YashModel.Syntax.Model
 import YashModel.Syntax.Lexer
 import YashModel.Syntax.Parser
+import YashModel.Syntax.Structure
 namespace YashModel.Syntax
 
 mutual
@@ -198,13 +199,117 @@ mutual
     | i :: is => itemSimples i ++ listSimples is
 end
 
+/-! ## whole programs read back by the model parser of the command structure -/
+
+def tokWordModelled (w : Word) : Bool := modelledWord w && !hasLaterTilde w && !w.isEmpty
+
+def redirModelled : Redir → Bool
+  | .normal _ _ w => tokWordModelled w
+  | .hereDoc _ _ _ => false
+
+def simpleStructModelled (c : SimpleCommand) : Bool :=
+  simpleModelled c && c.redirs.all redirModelled
+
+mutual
+  def compoundModelled : CompoundCommand → Bool
+    | .grouping l => listModelled l
+    | .subshell l => listModelled l
+    | .forLoop n vs b => tokWordModelled n && (vs.getD []).all tokWordModelled && listModelled b
+    | .whileLoop c b => listModelled c && listModelled b
+    | .untilLoop c b => listModelled c && listModelled b
+    | .ifCmd c b es _ e => listModelled c && listModelled b && elifsModelled es && listModelled e
+    | .caseCmd s items => tokWordModelled s && caseItemsModelled items
+  def elifsModelled : List ElifThen → Bool
+    | [] => true
+    | .mk c b :: rest => listModelled c && listModelled b && elifsModelled rest
+  def caseItemsModelled : List CaseItem → Bool
+    | [] => true
+    | .mk ps b _ :: rest => ps.all tokWordModelled && listModelled b && caseItemsModelled rest
+  def commandModelled : Command → Bool
+    | .simple c => simpleStructModelled c
+    | .compound c rs => compoundModelled c && rs.all redirModelled
+    | .function kw n c rs => !kw && tokWordModelled n && compoundModelled c && rs.all redirModelled
+  def commandsModelled : List Command → Bool
+    | [] => true
+    | c :: cs => commandModelled c && commandsModelled cs
+  def pipelineModelled : Pipeline → Bool
+    | .mk cs _ => commandsModelled cs
+  def andOrRestModelled : List AndOrRest → Bool
+    | [] => true
+    | .mk _ p :: rest => pipelineModelled p && andOrRestModelled rest
+  def itemModelled : Item → Bool
+    | .mk (.mk first rest) _ => pipelineModelled first && andOrRestModelled rest
+  def listModelled : List Item → Bool
+    | [] => true
+    | i :: is => itemModelled i && listModelled is
+end
+
+def eqSimple (a b : SimpleCommand) : Bool :=
+  eqAssigns a.assigns b.assigns && eqWords a.words b.words && eqRedirs a.redirs b.redirs
+
+mutual
+  def eqCompound : CompoundCommand → CompoundCommand → Bool
+    | .grouping a, .grouping b => eqItems a b
+    | .subshell a, .subshell b => eqItems a b
+    | .forLoop n vs b, .forLoop n' vs' b' =>
+      eqWord n n' && (match vs, vs' with
+        | none, none => true
+        | some x, some y => eqWords x y
+        | _, _ => false) && eqItems b b'
+    | .whileLoop c b, .whileLoop c' b' => eqItems c c' && eqItems b b'
+    | .untilLoop c b, .untilLoop c' b' => eqItems c c' && eqItems b b'
+    | .ifCmd c b es h e, .ifCmd c' b' es' h' e' =>
+      eqItems c c' && eqItems b b' && eqElifs es es' && h = h' && eqItems e e'
+    | .caseCmd s is, .caseCmd s' is' => eqWord s s' && eqCaseItems is is'
+    | _, _ => false
+  def eqElifs : List ElifThen → List ElifThen → Bool
+    | [], [] => true
+    | .mk c b :: r, .mk c' b' :: r' => eqItems c c' && eqItems b b' && eqElifs r r'
+    | _, _ => false
+  def eqCaseItems : List CaseItem → List CaseItem → Bool
+    | [], [] => true
+    | .mk p b k :: r, .mk p' b' k' :: r' => eqWords p p' && eqItems b b' && k = k' && eqCaseItems r r'
+    | _, _ => false
+  def eqCommand : Command → Command → Bool
+    | .simple a, .simple b => eqSimple a b
+    | .compound c r, .compound c' r' => eqCompound c c' && eqRedirs r r'
+    | .function k n c r, .function k' n' c' r' => k = k' && eqWord n n' && eqCompound c c' && eqRedirs r r'
+    | _, _ => false
+  def eqCommands : List Command → List Command → Bool
+    | [], [] => true
+    | a :: r, b :: r' => eqCommand a b && eqCommands r r'
+    | _, _ => false
+  def eqPipeline : Pipeline → Pipeline → Bool
+    | .mk a n, .mk b m => n = m && eqCommands a b
+  def eqAndOrRest : List AndOrRest → List AndOrRest → Bool
+    | [], [] => true
+    | .mk x p :: r, .mk y q :: r' => x = y && eqPipeline p q && eqAndOrRest r r'
+    | _, _ => false
+  def eqItem : Item → Item → Bool
+    | .mk (.mk f r) a, .mk (.mk f' r') a' => a = a' && eqPipeline f f' && eqAndOrRest r r'
+  def eqItems : List Item → List Item → Bool
+    | [], [] => true
+    | a :: r, b :: r' => eqItem a b && eqItems r r'
+    | _, _ => false
+end
+
+/-- verdict on a whole program: `none` = not in the modelled fragment -/
+def checkProgram (l : List Item) : Option Bool :=
+  if l.isEmpty || !listModelled l then none else
+  let text := printList false l ++ [')']
+  match parseProgram text with
+  | some (l', [')']) => some (eqItems l' l)
+  | _ => some false
+
 /-- second output column of the driver -/
 def specColumn (l : List Item) : String :=
   let rs := (listWords l).filterMap checkWord
   let ss := (listSimples l).filterMap checkSimple
-  if rs.isEmpty && ss.isEmpty then "-"
+  let ps := (checkProgram l).toList
+  if rs.isEmpty && ss.isEmpty && ps.isEmpty then "-"
   else if !rs.all id then "FAIL:a-printed-word-does-not-read-back"
   else if !ss.all id then "FAIL:a-printed-simple-command-does-not-read-back"
-  else "ok"
+  else if !ps.all id then "FAIL:the-printed-program-does-not-read-back"
+  else if ps.isEmpty then "ok" else "ok+structure"
 
 end YashModel.Syntax
